@@ -409,12 +409,16 @@ def pick(lst, n, key):
 
 
 def small_reps(reps, t, n):
+    """the first n of a fixed interleaving good, rejected, Python-only, good, rejected, ...
+    (a prefix, so that the quick choice is contained in the thorough one)"""
     r = reps[t]
-    if t == 5:
-        return pick(r['good'], n, ['s', t])
-    out = pick(r['good'], max(1, n // 2), ['g', t]) + pick(r['bad'], max(1, n - n // 2 - 1), ['b', t]) \
-        + pick(r['d29'], 1, ['d', t])
-    return list(dict.fromkeys(out))
+    g, b, d = pick(r['good'], 4, ['g', t]), pick(r['bad'], 3, ['b', t]), pick(r['d29'], 2, ['d', t])
+    order = []
+    for i in range(4):
+        for lst in (g, b, d):
+            if i < len(lst):
+                order.append(lst[i])
+    return list(dict.fromkeys(order))[:n]
 
 
 def line_pool(reps, tys):
@@ -561,7 +565,7 @@ def main(tier, seed):
     # ---- lines: 2 and 3 variables, every type tuple x tuples of representative fields
     items = []
     n2 = 4 if quick else 7
-    n3 = 3 if quick else 5
+    n3 = 2 if quick else 5
     for tys in type_tuples(3):
         if len(tys) == 1:
             continue
@@ -581,13 +585,17 @@ def main(tier, seed):
     # ---- histories: every type tuple x every sequence of pool lines
     items = []
     hl = 2 if quick else 3
+    ntup = 0
     for tys in type_tuples(3):
+        if quick and len(tys) == 3 and h(['hq', tys]) % 5 != 0:
+            continue      # quick: a fifth of the triples (a fixed subset, independent of the seed)
+        ntup += 1
         pool = line_pool(reps, tys)
         for n in range(1, hl + 1):
             for hist in itertools.product(pool, repeat=n):
                 items.append((tys, list(hist), ['hist', tys, hist]))
     batch.add('histories', items)
-    ctx.rule.append(f'histories: every type tuple of 1..3 variables (155) x every sequence of length <= {hl} over '
+    ctx.rule.append(f'histories: {ntup} of the 155 type tuples of 1..3 variables x every sequence of length <= {hl} over '
                     f'a pool of 6..9 lines (2 acceptable, too few, too many, one bad field at each position, one '
                     f'Python-only numeral); non-trivial = distinct (types, history)')
 
@@ -595,13 +603,13 @@ def main(tier, seed):
     tags = [['I', 0], ['I', 1], ['I', 2], ['I', -1], ['I', 5], ['I', 9], ['L', 1],
             ['S', fb(1.0)], ['$', ''], ['$', 'p']]
     mal = []
-    for n in range(0, (4 if quick else 5) + 1):
+    for n in range(0, (3 if quick else 4) + 1):
         for tup in itertools.product(range(len(tags)), repeat=n):
             mal.append([tags[i] for i in tup])
     mlines = ['x,1', '1', '1,2']
     batch.add_malformed('malformed', mal, mlines)
     batch.run()
-    ctx.rule.append(f'malformed: every stack of <= {4 if quick else 5} cells over {len(tags)} cells (counts 0,1,2,-1, '
+    ctx.rule.append(f'malformed: every stack of <= {3 if quick else 4} cells over {len(tags)} cells (counts 0,1,2,-1, '
                     f'type ids 5,9, LONG / SINGLE / STRING cells in INTEGER positions, short stacks)')
     ctx.sample({'suite': 'malformed', 'case': 'stack (bottom->top) ' + json.dumps(mal[len(mal) // 3])})
 
@@ -658,7 +666,7 @@ def gen_programs(ctx, reps, quick):
         kinds = [rng.choice(KINDS) for _ in tys]
         samp.append((rng.choice(SHAPES), rng.random() < 0.5, rng.choice(FORMS), list(zip(kinds, tys)), hist))
     if quick:
-        return core1[::4] + core2[::3] + samp[:40]
+        return core1[::6] + core2[::5] + samp[:25]
     return core1 + core2 + samp
 
 
@@ -831,23 +839,62 @@ def judge_compiled(ctx, orc, fmt, c, raw, ref, enc):
 
 
 def replay(path):
+    """re-run the recorded case on the implementation, the model and the
+    specification; exit 1 while it still fails"""
     d = json.load(open(path))
-    print(json.dumps(d, indent=1, default=str)[:6000])
-    first = d.get('first') or {}
-    c = first.get('case')
-    if not c:
+    print(f"property {d.get('property')}  signature {d.get('signature')}  "
+          f"(seen {d.get('count')} times, tier {d.get('tier')}, seed {d.get('seed')})")
+    if d.get('no_longer_checks') or not d.get('first'):
+        print('no concrete input recorded; broken obligations / ties:')
+        print(json.dumps(d.get('no_longer_checks') or d.get('broken_obligations'), indent=1))
+        print(str(d.get('detail', ''))[-1500:])
         return 1
-    suite = first.get('suite')
-    if suite == 'compiled':
-        r = run_impl('inputfn.run_prog', [c])[0]
-    elif suite == 'numerals':
-        r = run_impl('numfmt.op', [c])[0]
-    elif suite == 'malformed':
-        r = run_impl('inputfn.exec_input', [c])[0]
+    first = d['first']
+    c, suite = first['case'], first.get('suite')
+    print('case:', first.get('text') or json.dumps(c)[:600])
+    with vlib.Lock():
+        exe = vlib.build_model('Input')
+        exe_num = vlib.build_model('NumFmt')
+    orc = Oracle(exe)
+    failing = False
+    if suite == 'numerals':
+        a = run_impl('numfmt.op', [c])[0]
+        b = run_model(exe_num, [c])[0]
+        print('python:', a, ' model:', b)
+        failing = a != b
+    elif suite == 'compiled':
+        raw = run_impl('inputfn.run_prog', [c])[0]
+        acc = [l for l in c['lines'] if orc.accept(1, c['tys'], l) is not None]
+        ref = None
+        if acc and c['lines'][0] != acc[0]:
+            ref = run_impl('inputfn.run_prog', [dict(c, lines=[acc[0]])])[0]
+        enc = run_model(exe, [[3, 1 if c['sl'] else 0, c['form'], c['tys']]])[0]
+        sp = orc.spec_run(c['sl'], c['form'], c['tys'], c['lines'])
+        fmt = number_texts(exe_num, sp[2] if sp[0] == 0 else [])
+        print(c['src'])
+        if 'events' in raw:
+            for e in raw['events']:
+                print('   ', e[0], repr(l2s(e[-1])) if isinstance(e[-1], list) else e[1:])
+            print('    ->', raw['status'], raw['outcome'], raw.get('host_exc'), 'stack', raw['stack'])
+        else:
+            print('   ', raw)
+        sig = judge_compiled(None, orc, fmt, c, raw, ref, enc)
+        print('verdict now:', sig if sig else 'meets the specification')
+        failing = sig is not None
     else:
-        r = run_impl('inputfn.exec_input',
-                     [{'stack': c['base'] + enc_stack(c['sl'], c['prompt'], c['q'], c['tys']),
-                       'lines': c['lines']}])[0]
-    print('--- implementation now:')
-    print(json.dumps(r)[:3000])
-    return 1
+        st = c['stack'] if 'stack' in c else c['base'] + enc_stack(c['sl'], c['prompt'], c['q'], c['tys'])
+        raw = run_impl('inputfn.exec_input', [{'stack': st, 'lines': c['lines']}])[0]
+        mo = run_model(exe, [[1, VARIANT, [mcell(x) for x in st], c['lines']]])[0]
+        ni = norm_exec(raw)
+        print('implementation:', json.dumps(ni)[:1500])
+        print('model         :', json.dumps(mo)[:1500])
+        sig = None
+        if 'tys' in c and ni[0] != 'exc':
+            sig = judge_against_spec(orc, c['sl'], c['prompt'], c['q'], c['tys'], c['lines'],
+                                     [ccell(x) for x in c['base']], ni)
+            print('specification :', json.dumps(orc.spec_run(c['sl'], form_of(c['prompt'], c['q']),
+                                                              c['tys'], c['lines']))[:1500])
+        print('verdict now:', sig if sig else ('model and implementation differ' if ni != mo
+                                               else 'agrees with the model and meets the specification'))
+        failing = sig is not None or ni != mo
+    return 1 if failing else 0
